@@ -4,17 +4,121 @@ package main
 
 import (
 	"bufio"
+	"bytes"
 	"encoding/json"
 	"fmt"
+	"io"
+	"log"
+	"net/http"
+	"net/http/httptest"
 	"os"
+	"strings"
+	"sync"
 	"time"
+
+	"github.com/gin-gonic/gin"
 
 	"github.com/Azbesciak/RealDecisionMaker/lib/model"
 	"github.com/Azbesciak/RealDecisionMaker/lib/utils"
 )
 
-// decideJSON does exactly what decideHandler does after binding, in-process.
+// ---------- handler glue ----------
+// Every whole request an in-process check decides is ALSO given to the real `decideHandler` of main.go (gin test
+// context, no network), and the handler's answer must be the library's answer for the same body: this ties the
+// glue around MakeDecision (binding, recover, error mapping, any per-request bookkeeping the handler does) to
+// every property that speaks about responses.  The first disagreement is reported once per run as oracle
+// "handler-glue", with the bodies handled before it (the handler may keep something between requests).
+
+type glueMismatch struct {
+	Body      string   `json:"request_body"`
+	Preceding []string `json:"preceding_request_bodies_oldest_first"`
+	Handler   string   `json:"handler_answer"`
+	Library   string   `json:"library_answer"`
+}
+
+var glue struct {
+	sync.Mutex
+	once     sync.Once
+	compared int
+	history  []string
+	first    *glueMismatch
+	off      bool
+}
+
+// handlerJSON: POST /api/decide through the real handler function
+func handlerJSON(body []byte) (status int, out []byte) {
+	glue.once.Do(func() {
+		gin.SetMode(gin.ReleaseMode)
+		gin.DefaultWriter, gin.DefaultErrorWriter = io.Discard, io.Discard
+		log.SetOutput(io.Discard)
+	})
+	w := httptest.NewRecorder()
+	c, _ := gin.CreateTestContext(w)
+	c.Request = httptest.NewRequest(http.MethodPost, "/api/decide", bytes.NewReader(body))
+	c.Request.Header.Set("Content-Type", "application/json")
+	if msg := recoverErr(func() { decideHandler(c) }); msg != "" {
+		return -1, []byte("handler panicked: " + msg)
+	}
+	return w.Code, w.Body.Bytes()
+}
+
+func glueSame(hst int, hout []byte, lst int, lout []byte) bool {
+	switch {
+	case hst == 200 && lst == 200:
+		var a, b bytes.Buffer
+		if json.Compact(&a, hout) != nil || json.Compact(&b, lout) != nil {
+			return false
+		}
+		return bytes.Equal(a.Bytes(), b.Bytes())
+	case hst == 400 && lst == 400:
+		return true
+	case lst == 500: // the decision cannot be serialised (non-finite number): the handler's recover answers 400
+		return hst == 400 && strings.Contains(string(hout), "unsupported value")
+	}
+	return false
+}
+
+func glueCheck(body []byte, lst int, lout []byte) {
+	glue.Lock()
+	defer glue.Unlock()
+	if glue.off || glue.first != nil {
+		return
+	}
+	hst, hout := handlerJSON(body)
+	glue.compared++
+	if !glueSame(hst, hout, lst, lout) {
+		glue.first = &glueMismatch{Body: string(body), Preceding: append([]string{}, glue.history...),
+			Handler: fmt.Sprintf("%d %s", hst, truncate(string(hout), 1500)), Library: fmt.Sprintf("%d %s", lst, truncate(string(lout), 1500))}
+	}
+	glue.history = append(glue.history, string(body))
+	if len(glue.history) > 3 {
+		glue.history = glue.history[1:]
+	}
+}
+
+// glueReport: emitted once at the end of a property run
+func glueReport(o *Out) {
+	glue.Lock()
+	defer glue.Unlock()
+	if glue.compared == 0 {
+		return
+	}
+	o.count("handler-glue:compared=" + itoa(glue.compared))
+	m := Meta{Stage: "handler-glue", Key: "handler-glue", Input: J{"compared": glue.compared}}
+	if glue.first != nil {
+		m.Input = glue.first
+	}
+	o.Oracle(m, glue.first == nil, "the HTTP handler's answer differs from the library's answer for the same request body")
+}
+
+// decideJSON does exactly what decideHandler does after binding, in-process (and compares with the real handler).
 func decideJSON(body []byte) (status int, out []byte) {
+	status, out = libraryJSON(body)
+	glueCheck(body, status, out)
+	return
+}
+
+func libraryJSON(body []byte) (status int, out []byte) {
 	var dm model.DecisionMaker
 	if err := json.Unmarshal(body, &dm); err != nil {
 		b, _ := json.Marshal(map[string]interface{}{"error": err.Error()})
@@ -58,6 +162,7 @@ func decideJSONTimeout(body []byte, d time.Duration) (status int, out []byte, ti
 
 // serveStdio: one JSON request per line on stdin, "<status> <body>" per line on stdout.
 func serveStdio() int {
+	glue.off = true
 	in := bufio.NewReaderSize(os.Stdin, 1<<24)
 	w := bufio.NewWriter(os.Stdout)
 	defer w.Flush()
